@@ -107,6 +107,11 @@ def gen_cases(tier, seed):
             # on_add is still queued
             yield reentry.gen_overtake(
                 random.Random(f'C02/ot/{seed}/{tier}/{i}'))
+        if i % 20 == 11:
+            # a released callback runs a batch of its own (disable, attach/
+            # detach, enable) while older postponed callbacks are still owed
+            yield reentry.gen_nested(
+                random.Random(f'C02/nest/{seed}/{tier}/{i}'))
         yield gen_one(random.Random(f'C02/{seed}/{tier}/{i}'), tier, i)
 
 
@@ -386,6 +391,8 @@ def run_case(case):
         return reentry.run_overtake(case)
     if case.get('scenario') == 'disable_in_on_add':
         return reentry.run_disable(case)
+    if case.get('scenario') == 'nested_batch':
+        return reentry.run_nested(case)
     if case.get('scenario'):
         return run_scenario(case)
     res = Res()
@@ -402,5 +409,12 @@ def classify(case, div):
     if case.get('scenario') == 'overtake' and case['victim_after_actor'] \
             and div['kind'] in ('overtake-callbacks-out-of-turn',
                                 'overtake-registration'):
+        return 'release-overtaken-by-immediate-callback'
+    if case.get('scenario') == 'session' and div.get('release_cut') \
+            and div['kind'] == 'session-callbacks-not-alternating':
+        # same mechanism, other route: a callback raised out of the release
+        # (Quit, SwitchWorld, an error), the world stays enabled with
+        # callbacks still queued, and the immediate callback of a later
+        # operation overtakes them
         return 'release-overtaken-by-immediate-callback'
     return None
